@@ -165,6 +165,9 @@ static bool pred_call(void)
 {
   VX_ASSERT(g_user->held, "the predicate is evaluated without the user lock");
   g_last_pred = nondet_bool();
+#ifdef VX_NATIVE
+  { static int vx_native_evals; if (++vx_native_evals > 6) g_last_pred = true; }   /* native replay only: let a spinning run end */
+#endif
   g_user_released_since_pred = false;
   if (g_pred_calls < 2) g_pred_calls++;
   return g_last_pred;
@@ -179,7 +182,9 @@ static bool g_stop_seen;          /* stop_requested() has returned true to the c
 static bool g_cb_registered;      /* a stop_callback is currently registered */
 static long g_cb_runs_here;       /* the callback was run synchronously by the registration: stop already requested (saturating at 2) */
 static int vx_exc;                /* an exception is in flight (the internal wait threw: interruption / abort) */
+#ifdef STOP_FORMS
 void stop_cb_body(struct vx_closure *clo);
+#endif
 static bool stop_requested(stop_token t)
 {
   if (!g_stop) g_stop = nondet_bool();      /* environment: request_stop() by another thread */
@@ -187,6 +192,7 @@ static bool stop_requested(stop_token t)
   else if (g_blk->mtx_.held) g_stop_checked_false_in_cs = true;
   return g_stop;
 }
+#ifdef STOP_FORMS
 /* std::stop_callback(token, f): registers f; if stop has already been requested f is invoked here, before the constructor returns */
 static struct stop_callback stop_callback_make(stop_token t, struct vx_closure f)
 {
@@ -207,6 +213,7 @@ static void stop_callback_dtor(struct stop_callback *cb)
   VX_ASSERT(g_cb_registered, "stop_callback destroyed twice");
   g_cb_registered = false;
 }
+#endif
 
 static int dcv_block(struct dcv *c, struct ilock *l, bool timed)
 {
